@@ -20,8 +20,12 @@ def WResp.isErr : WResp → Bool
 /-- a call of `write`: the size of the buffer offered and the kernel's answer -/
 abbrev Call2 := Nat × WResp
 
-/-- the kernel answered `0` although it was offered a non-empty buffer (the excluded input class) -/
+/-- the kernel answered `0` although it was offered a non-empty buffer -/
 def badZero (c : Call2) : Bool := c.2.isZero && c.1 != 0
+
+/-- a call whose answer makes `try_print` give up with `fmt::Error`: an error (EINTR included), or `0` although a
+non-empty buffer was offered (`0` for the zero-length write of an empty piece is the normal answer) -/
+def failing (c : Call2) : Bool := c.2.isErr || badZero c
 
 /-- the calls that consumed a script element: offered size (from the model's log) paired with the answer -/
 def WOut.calls (o : WOut) (script : List WResp) : List Call2 := o.log.zip (script.take o.used)
@@ -49,10 +53,13 @@ theorem zip_after (l1 l2 : List Nat) (script : List WResp) (u1 u2 : Nat)
     simp only [Nat.add_zero, List.take_zero, List.zip_nil_right, List.append_nil]
     exact zip_append_short l1 l2 _ (by simp; omega)
 
-theorem pos_calls_ok {l : List Nat} {s : List WResp} (h : ∀ r ∈ s, r.pos = true) : ∀ c ∈ l.zip s, badZero c = false := by
+theorem pos_not_failing {c : Call2} (h : c.2.pos = true) : failing c = false := by
+  obtain ⟨n, r⟩ := c
+  cases r <;> simp_all [failing, badZero, WResp.pos, WResp.isZero, WResp.isErr]
+
+theorem pos_calls_ok {l : List Nat} {s : List WResp} (h : ∀ r ∈ s, r.pos = true) : ∀ c ∈ l.zip s, failing c = false := by
   intro c hc
-  have := h c.2 (List.of_mem_zip hc).2
-  cases hr : c.2 <;> simp_all [badZero, WResp.pos, WResp.isZero]
+  exact pos_not_failing (h c.2 (List.of_mem_zip hc).2)
 
 theorem WResp.pos_not_zero {r : WResp} (h : r.pos = true) : r.isZero = false := by
   cases r <;> simp_all [WResp.pos, WResp.isZero]
@@ -69,10 +76,14 @@ structure PSpec (data : List Nat) (script : List WResp) (o : WOut) : Prop where
   noPanic : o.res = .ok () ∨ o.res = .err .formatter
   /-- every call but those past the end of the script consumed one answer -/
   logLen : o.log.length = o.used ∨ (o.rest = [] ∧ o.used ≤ o.log.length)
-  /-- `Ok` means everything was delivered — unless the kernel answered 0 to a non-empty buffer -/
-  complete : (∀ c ∈ o.calls script, badZero c = false) → o.res = .ok () → o.sink = data
-  /-- `Err` exactly when the last consumed answer is an error; all answers before it were positive counts -/
-  err : ∀ e, o.res = .err e → ∃ p r, script.take o.used = p ++ [r] ∧ r.isErr = true ∧ ∀ x ∈ p, x.pos = true
+  /-- `Ok` means everything was delivered -/
+  complete : o.res = .ok () → o.sink = data
+  /-- `Ok` only if no call failed -/
+  okCalls : o.res = .ok () → ∀ c ∈ o.calls script, failing c = false
+  /-- `Err` exactly when the last call failed (an error, or `0` for a non-empty rest); all answers before it were
+  positive counts, and no `write` is issued after it -/
+  err : ∀ e, o.res = .err e → o.log.length = o.used ∧
+    ∃ p c, o.calls script = p ++ [c] ∧ failing c = true ∧ ∀ x ∈ p, x.2.pos = true
 
 theorem tryPrint_spec : ∀ (script : List WResp) (data : List Nat), PSpec data script (tryPrint data script) := by
   intro script
@@ -80,28 +91,37 @@ theorem tryPrint_spec : ∀ (script : List WResp) (data : List Nat), PSpec data 
   | nil =>
     intro data
     exact ⟨by simp [tryPrint], by simp [tryPrint], by simp [tryPrint], by simp [tryPrint], by simp [tryPrint],
-      by simp [tryPrint], by simp [tryPrint]⟩
+      by simp [tryPrint], by simp [tryPrint, WOut.calls], by simp [tryPrint]⟩
   | cons r rest ih =>
     intro data
     cases r with
     | accept k =>
       by_cases hz : k = 0
       · subst hz
-        refine ⟨by simp [tryPrint], by simp [tryPrint], by simp [tryPrint], by simp [tryPrint], by simp [tryPrint], ?_,
-          by simp [tryPrint]⟩
-        intro h _
-        have := h (data.length, .accept 0) (by simp [tryPrint, WOut.calls])
-        simp only [badZero, WResp.isZero, beq_self_eq_true, Bool.true_and, bne_eq_false_iff_eq] at this
-        simp [tryPrint, List.eq_nil_of_length_eq_zero this]
+        by_cases hd : data.length = 0
+        · have hn : data = [] := List.eq_nil_of_length_eq_zero hd
+          subst hn
+          exact ⟨by simp [tryPrint], by simp [tryPrint], by simp [tryPrint], by simp [tryPrint], by simp [tryPrint],
+            by simp [tryPrint], by simp [tryPrint, WOut.calls, failing, badZero, WResp.isErr, WResp.isZero],
+            by simp [tryPrint]⟩
+        · have e1 : tryPrint data (.accept 0 :: rest) = ⟨.err .formatter, [], rest, [data.length], 1⟩ := by
+            simp [tryPrint, hd]
+          rw [e1]
+          refine ⟨by simp, by simp, by simp, by simp, by simp, by simp, by simp, ?_⟩
+          intro e _
+          refine ⟨by simp, [], (data.length, .accept 0), by simp [WOut.calls], ?_, by simp⟩
+          simp [failing, badZero, WResp.isErr, WResp.isZero, hd]
       · by_cases hk : data.length ≤ k
         · exact ⟨by simp [tryPrint, hz, hk], by simp [tryPrint, hz, hk], by simp [tryPrint, hz, hk],
-            by simp [tryPrint, hz, hk], by simp [tryPrint, hz, hk], by simp [tryPrint, hz, hk], by simp [tryPrint, hz, hk]⟩
+            by simp [tryPrint, hz, hk], by simp [tryPrint, hz, hk], by simp [tryPrint, hz, hk],
+            by simp [tryPrint, hz, hk, WOut.calls, failing, badZero, WResp.isErr, WResp.isZero],
+            by simp [tryPrint, hz, hk]⟩
         · have e1 : tryPrint data (.accept k :: rest) = (tryPrint (data.drop k) rest).push (data.take k) data.length := by
             simp [tryPrint, hz, hk]
           have hk' : k < data.length := by omega
-          obtain ⟨i1, i2, i3, i4, i7, i5, i6⟩ := ih (data.drop k)
+          obtain ⟨i1, i2, i3, i4, i7, i5, i8, i6⟩ := ih (data.drop k)
           rw [e1]
-          refine ⟨?_, ?_, ?_, ?_, ?_, ?_, ?_⟩
+          refine ⟨?_, ?_, ?_, ?_, ?_, ?_, ?_, ?_⟩
           · simp only [WOut.push, List.length_append, List.length_take, Nat.min_eq_left (Nat.le_of_lt hk')]
             rw [List.take_add]
             congr 1
@@ -112,41 +132,66 @@ theorem tryPrint_spec : ∀ (script : List WResp) (data : List Nat), PSpec data 
             rcases i7 with h | ⟨h, h'⟩
             · left; omega
             · right; exact ⟨h, by omega⟩
-          · intro h hok
-            simp only [WOut.push, WOut.calls, List.take_succ_cons, List.zip_cons_cons] at h hok ⊢
-            have := i5 (fun x hx => h x (List.mem_cons_of_mem _ hx)) hok
-            rw [this, List.take_append_drop]
+          · intro hok
+            simp only [WOut.push] at hok ⊢
+            rw [i5 hok, List.take_append_drop]
+          · intro hok c hc
+            simp only [WOut.push, WOut.calls, List.take_succ_cons, List.zip_cons_cons, List.mem_cons] at hok hc
+            rcases hc with hc | hc
+            · subst hc
+              simp [failing, badZero, WResp.isErr, WResp.isZero, hz]
+            · exact i8 hok c hc
           · intro e he
             simp only [WOut.push] at he
-            obtain ⟨p, r, j1, j2, j3⟩ := i6 e he
-            refine ⟨.accept k :: p, r, by simp [WOut.push, j1], j2, ?_⟩
-            intro x hx
-            cases hx with
-            | head => simp [WResp.pos, hz]
-            | tail _ hx => exact j3 x hx
+            obtain ⟨j0, p, c, j1, j2, j3⟩ := i6 e he
+            refine ⟨by simp only [WOut.push, List.length_cons]; omega, (data.length, .accept k) :: p, c, ?_, j2, ?_⟩
+            · simp only [WOut.calls] at j1
+              simp [WOut.push, WOut.calls, j1]
+            · intro x hx
+              cases hx with
+              | head => simp [WResp.pos, hz]
+              | tail _ hx => exact j3 x hx
     | eintr =>
       exact ⟨by simp [tryPrint], by simp [tryPrint], by simp [tryPrint], by simp [tryPrint], by simp [tryPrint],
-        by simp [tryPrint], by intro e _; exact ⟨[], .eintr, by simp [tryPrint], rfl, by simp⟩⟩
+        by simp [tryPrint], by simp [tryPrint],
+        by intro e _; exact ⟨by simp [tryPrint], [], (data.length, .eintr), by simp [tryPrint, WOut.calls], rfl, by simp⟩⟩
     | err e =>
       exact ⟨by simp [tryPrint], by simp [tryPrint], by simp [tryPrint], by simp [tryPrint], by simp [tryPrint],
-        by simp [tryPrint], by intro e' _; exact ⟨[], .err e, by simp [tryPrint], rfl, by simp⟩⟩
+        by simp [tryPrint], by simp [tryPrint],
+        by intro e' _; exact ⟨by simp [tryPrint], [], (data.length, .err e), by simp [tryPrint, WOut.calls], rfl, by simp⟩⟩
     | uerr =>
       exact ⟨by simp [tryPrint], by simp [tryPrint], by simp [tryPrint], by simp [tryPrint], by simp [tryPrint],
-        by simp [tryPrint], by intro e _; exact ⟨[], .uerr, by simp [tryPrint], rfl, by simp⟩⟩
+        by simp [tryPrint], by simp [tryPrint],
+        by intro e _; exact ⟨by simp [tryPrint], [], (data.length, .uerr), by simp [tryPrint, WOut.calls], rfl, by simp⟩⟩
+
+/-- the result is decided by the calls: `Ok` exactly when no call failed -/
+theorem PSpec.ok_iff {data : List Nat} {script : List WResp} {o : WOut} (s : PSpec data script o) :
+    o.res = .ok () ↔ ∀ c ∈ o.calls script, failing c = false := by
+  refine ⟨s.okCalls, fun h => ?_⟩
+  rcases s.noPanic with h1 | h1
+  · exact h1
+  · obtain ⟨_, p, c, j1, j2, _⟩ := s.err _ h1
+    have := h c (by rw [j1]; simp)
+    rw [this] at j2
+    cases j2
 
 /-- short writes only (every consumed answer a positive count) ⇒ `Ok` and the whole piece delivered -/
 theorem tryPrint_short_writes (data : List Nat) (script : List WResp)
     (h : ∀ r ∈ script.take (tryPrint data script).used, r.pos = true) :
     (tryPrint data script).res = .ok () ∧ (tryPrint data script).sink = data := by
   have s := tryPrint_spec script data
-  have hok : (tryPrint data script).res = .ok () := by
-    rcases s.noPanic with h1 | h1
-    · exact h1
-    · obtain ⟨p, r, j1, j2, _⟩ := s.err _ h1
-      have := h r (by rw [j1]; simp)
-      rw [WResp.pos_not_err this] at j2
-      cases j2
-  exact ⟨hok, s.complete (pos_calls_ok h) hok⟩
+  have hok : (tryPrint data script).res = .ok () := s.ok_iff.2 (pos_calls_ok h)
+  exact ⟨hok, s.complete hok⟩
+
+/-- the bookkeeping every run on a script satisfies: what is left of the script, and that the log pairs up with
+the consumed answers -/
+structure Str (script : List WResp) (o : WOut) : Prop where
+  rest : o.rest = script.drop o.used
+  usedLe : o.used ≤ script.length
+  logLen : o.log.length = o.used ∨ (o.rest = [] ∧ o.used ≤ o.log.length)
+
+theorem PSpec.str {data : List Nat} {script : List WResp} {o : WOut} (s : PSpec data script o) : Str script o :=
+  ⟨s.rest, s.usedLe, s.logLen⟩
 
 /-- what `fmt::write` into the `__UnixWriter` guarantees for the pieces `bss` -/
 structure FSpec (bss : List (List Nat)) (script : List WResp) (o : WOut) : Prop where
@@ -154,10 +199,29 @@ structure FSpec (bss : List (List Nat)) (script : List WResp) (o : WOut) : Prop 
   usedLe : o.used ≤ script.length
   noPanic : o.res = .ok () ∨ o.res = .err .formatter
   logLen : o.log.length = o.used ∨ (o.rest = [] ∧ o.used ≤ o.log.length)
-  /-- in order, each byte once, no hole — unless the kernel answered 0 to a non-empty buffer -/
-  pre : (∀ c ∈ o.calls script, badZero c = false) → o.sink = bss.flatten.take o.sink.length
-  complete : (∀ c ∈ o.calls script, badZero c = false) → o.res = .ok () → o.sink = bss.flatten
-  err : ∀ e, o.res = .err e → ∃ r ∈ script.take o.used, r.isErr = true
+  /-- in order, each byte once, no hole -/
+  pre : o.sink = bss.flatten.take o.sink.length
+  /-- `Ok` means the whole rendering was delivered -/
+  complete : o.res = .ok () → o.sink = bss.flatten
+  /-- `Ok` only if no call failed -/
+  okCalls : o.res = .ok () → ∀ c ∈ o.calls script, failing c = false
+  /-- `Err` exactly when a call failed; that call is the first failing one and the LAST call made: neither the rest
+  of its piece nor any later piece is written -/
+  err : ∀ e, o.res = .err e → o.log.length = o.used ∧
+    ∃ p c, o.calls script = p ++ [c] ∧ failing c = true ∧ ∀ x ∈ p, failing x = false
+
+theorem FSpec.str {bss : List (List Nat)} {script : List WResp} {o : WOut} (s : FSpec bss script o) : Str script o :=
+  ⟨s.rest, s.usedLe, s.logLen⟩
+
+theorem FSpec.ok_iff {bss : List (List Nat)} {script : List WResp} {o : WOut} (s : FSpec bss script o) :
+    o.res = .ok () ↔ ∀ c ∈ o.calls script, failing c = false := by
+  refine ⟨s.okCalls, fun h => ?_⟩
+  rcases s.noPanic with h1 | h1
+  · exact h1
+  · obtain ⟨_, p, c, j1, j2, _⟩ := s.err _ h1
+    have := h c (by rw [j1]; simp)
+    rw [this] at j2
+    cases j2
 
 /-- the calls of `first.after second` when `second` ran on what `first` left -/
 theorem calls_after (o1 o2 : WOut) (script : List WResp)
@@ -184,6 +248,28 @@ theorem logLen_after (o1 o2 : WOut)
       exact ⟨by rw [hr2, a]; simp, by omega⟩
     · right; exact ⟨b, by omega⟩
 
+/-- a run followed by a second run on the rest of the script: bookkeeping and calls -/
+theorem Str.after {script : List WResp} {o1 o2 : WOut} (h1 : Str script o1) (h2 : Str o1.rest o2) :
+    Str script (o1.after o2) := by
+  refine ⟨?_, ?_, logLen_after _ _ h1.logLen h2.logLen h2.usedLe h2.rest⟩
+  · simp only [WOut.after]
+    rw [h2.rest, h1.rest, List.drop_drop]
+  · have := h1.usedLe
+    have := h2.usedLe
+    have h3 : o1.rest.length = script.length - o1.used := by rw [h1.rest]; simp
+    simp only [WOut.after]; omega
+
+theorem Str.calls_after {script : List WResp} {o1 o2 : WOut} (h1 : Str script o1) (h2 : Str o1.rest o2) :
+    (o1.after o2).calls script = o1.calls script ++ o2.calls o1.rest :=
+  TinyVerif.Io.calls_after o1 o2 script h1.logLen h1.rest h1.usedLe h2.usedLe
+
+/-- the second run consumed something only if the log of the first pairs up exactly with what it consumed -/
+theorem Str.log_exact_of_next {script : List WResp} {o1 : WOut} (h1 : Str script o1) {u2 : Nat}
+    (hu : u2 ≤ o1.rest.length) (hpos : 0 < u2) : o1.log.length = o1.used := by
+  rcases h1.logLen with h | ⟨h, _⟩
+  · exact h
+  · rw [h] at hu; simp at hu; omega
+
 theorem printFmt_spec : ∀ (bss : List (List Nat)) (script : List WResp),
     FSpec bss script (printFmt (bss.map .str) script) := by
   intro bss
@@ -191,7 +277,7 @@ theorem printFmt_spec : ∀ (bss : List (List Nat)) (script : List WResp),
   | nil =>
     intro script
     exact ⟨by simp [printFmt], by simp [printFmt], by simp [printFmt], by simp [printFmt], by simp [printFmt],
-      by simp [printFmt], by simp [printFmt]⟩
+      by simp [printFmt], by simp [printFmt, WOut.calls], by simp [printFmt]⟩
   | cons bs more ih =>
     intro script
     have s := tryPrint_spec script bs
@@ -200,82 +286,102 @@ theorem printFmt_spec : ∀ (bss : List (List Nat)) (script : List WResp),
     | panic site => rcases s.noPanic with h | h <;> rw [h1] at h <;> cases h
     | err e =>
       simp only []
-      refine ⟨s.rest, s.usedLe, s.noPanic, s.logLen, ?_, ?_, ?_⟩
-      · intro _
-        have hl : (tryPrint bs script).sink.length ≤ bs.length := by
+      refine ⟨s.rest, s.usedLe, s.noPanic, s.logLen, ?_, ?_, ?_, ?_⟩
+      · have hl : (tryPrint bs script).sink.length ≤ bs.length := by
           have := congrArg List.length s.pre
           simp only [List.length_take] at this
           omega
         rw [List.flatten_cons, List.take_append_of_le_length hl]
         exact s.pre
-      · intro _ h; rw [h1] at h; cases h
-      · intro e' h
-        obtain ⟨p, r, j1, j2, _⟩ := s.err e h1
-        exact ⟨r, by rw [j1]; simp, j2⟩
+      · intro h; rw [h1] at h; cases h
+      · intro h; rw [h1] at h; cases h
+      · intro e' _
+        obtain ⟨j0, p, c, j1, j2, j3⟩ := s.err e h1
+        exact ⟨j0, p, c, j1, j2, fun x hx => pos_not_failing (j3 x hx)⟩
     | ok u =>
       simp only []
       have t := ih (tryPrint bs script).rest
-      have hu2 : (printFmt (more.map .str) (tryPrint bs script).rest).used ≤ (tryPrint bs script).rest.length := t.usedLe
-      have hc := calls_after (tryPrint bs script) (printFmt (more.map .str) (tryPrint bs script).rest) script
-        s.logLen s.rest s.usedLe hu2
-      have hu : script.take ((tryPrint bs script).used + (printFmt (more.map .str) (tryPrint bs script).rest).used) =
-          script.take (tryPrint bs script).used ++
-            ((tryPrint bs script).rest).take (printFmt (more.map .str) (tryPrint bs script).rest).used := by
-        rw [s.rest]; exact List.take_add
-      refine ⟨?_, ?_, ?_, ?_, ?_, ?_, ?_⟩
-      · simp only [WOut.after]
-        rw [t.rest, s.rest, List.drop_drop]
-      · have := s.usedLe
-        have h3 : (tryPrint bs script).rest.length = script.length - (tryPrint bs script).used := by
-          rw [s.rest]; simp
-        simp only [WOut.after]; omega
+      have hok : (tryPrint bs script).res = .ok () := by rw [h1]
+      have st := Str.after s.str t.str
+      have hc := Str.calls_after s.str t.str
+      refine ⟨st.rest, st.usedLe, ?_, st.logLen, ?_, ?_, ?_, ?_⟩
       · simpa [WOut.after] using t.noPanic
-      · exact logLen_after _ _ s.logLen t.logLen hu2 t.rest
-      · intro hz
-        rw [hc] at hz
-        have hz1 := fun c hx => hz c (List.mem_append_left _ hx)
-        have hz2 := fun c hx => hz c (List.mem_append_right _ hx)
-        have c1 := s.complete hz1 (by rw [h1])
-        simp only [WOut.after]
-        rw [c1, List.flatten_cons, List.length_append, List.take_length_add_append, ← t.pre hz2]
-      · intro hz hok
-        rw [hc] at hz
-        have hz1 := fun c hx => hz c (List.mem_append_left _ hx)
-        have hz2 := fun c hx => hz c (List.mem_append_right _ hx)
-        simp only [WOut.after] at hok ⊢
-        rw [s.complete hz1 (by rw [h1]), t.complete hz2 hok, List.flatten_cons]
+      · simp only [WOut.after]
+        rw [s.complete hok, List.flatten_cons, List.length_append, List.take_length_add_append, ← t.pre]
+      · intro hok2
+        simp only [WOut.after] at hok2 ⊢
+        rw [s.complete hok, t.complete hok2, List.flatten_cons]
+      · intro hok2 c hx
+        rw [hc] at hx
+        simp only [WOut.after] at hok2
+        rcases List.mem_append.1 hx with hx | hx
+        · exact s.okCalls hok c hx
+        · exact t.okCalls hok2 c hx
       · intro e he
-        simp only [WOut.after] at he ⊢
-        obtain ⟨r, hr, hre⟩ := t.err e he
-        exact ⟨r, by rw [hu]; exact List.mem_append_right _ hr, hre⟩
+        simp only [WOut.after] at he
+        obtain ⟨j0, p, c, j1, j2, j3⟩ := t.err e he
+        have hpos : 0 < (printFmt (more.map .str) (tryPrint bs script).rest).used := by
+          have := congrArg List.length j1
+          simp only [WOut.calls, List.length_zip, List.length_take, List.length_append, List.length_cons,
+            List.length_nil] at this
+          omega
+        have hl := s.str.log_exact_of_next t.usedLe hpos
+        refine ⟨by simp only [WOut.after, List.length_append]; omega,
+          (tryPrint bs script).calls script ++ p, c, ?_, j2, ?_⟩
+        · rw [hc, j1, List.append_assoc]
+        · intro x hx
+          rcases List.mem_append.1 hx with hx | hx
+          · exact s.okCalls hok x hx
+          · exact j3 x hx
 
 /-- short writes only ⇒ `Ok` and the whole rendering delivered, in order -/
 theorem printFmt_short_writes (bss : List (List Nat)) (script : List WResp)
     (h : ∀ r ∈ script.take (printFmt (bss.map .str) script).used, r.pos = true) :
     (printFmt (bss.map .str) script).res = .ok () ∧ (printFmt (bss.map .str) script).sink = bss.flatten := by
   have s := printFmt_spec bss script
-  have hok : (printFmt (bss.map .str) script).res = .ok () := by
-    rcases s.noPanic with h1 | h1
-    · exact h1
-    · obtain ⟨r, hr, j2⟩ := s.err _ h1
-      have := h r hr
-      rw [WResp.pos_not_err this] at j2
-      cases j2
-  exact ⟨hok, s.complete (pos_calls_ok h) hok⟩
+  have hok : (printFmt (bss.map .str) script).res = .ok () := s.ok_iff.2 (pos_calls_ok h)
+  exact ⟨hok, s.complete hok⟩
 
 /-- the newline the `ln` forms add -/
 def nlOf (ln : Bool) : List Nat := if ln then NL else []
 
-theorem printMacro_rest (ln : Bool) (bss : List (List Nat)) (script : List WResp) :
-    (printMacro ln (bss.map .str) script).rest = script.drop (printMacro ln (bss.map .str) script).used := by
+/-- what `__write_newline` gets onto the descriptor, as a function of the next kernel answer: the newline if the
+answer is a positive count (or the script is exhausted), nothing if it is `0` or an error -/
+def nlPart : List WResp → List Nat
+  | [] => NL
+  | r :: _ => if r.pos then NL else []
+
+/-- `try_print("\n")`: exactly one `write` of one byte, whatever the answer -/
+theorem tryPrint_nl (script : List WResp) :
+    (tryPrint NL script).sink = nlPart script ∧ (tryPrint NL script).log = [1] ∧
+    (tryPrint NL script).used = min 1 script.length ∧
+    ((tryPrint NL script).res = .ok () ↔ nlPart script = NL) := by
+  cases script with
+  | nil => simp [tryPrint, nlPart]
+  | cons r rest =>
+    cases r with
+    | accept k =>
+      by_cases hz : k = 0
+      · subst hz; simp [tryPrint, nlPart, WResp.pos]
+      · have hk : 1 ≤ k := by omega
+        simp [tryPrint, nlPart, WResp.pos, hz, hk]
+    | eintr => simp [tryPrint, nlPart, WResp.pos]
+    | err e => simp [tryPrint, nlPart, WResp.pos]
+    | uerr => simp [tryPrint, nlPart, WResp.pos]
+
+theorem printMacro_str (ln : Bool) (bss : List (List Nat)) (script : List WResp) :
+    Str script (printMacro ln (bss.map .str) script) := by
   have s := printFmt_spec bss script
   unfold printMacro
   cases ln with
-  | false => simpa using s.rest
+  | false => simpa using s.str
   | true =>
-    have t := tryPrint_spec (printFmt (bss.map .str) script).rest NL
-    simp only [if_true, WOut.after]
-    rw [t.rest, s.rest, List.drop_drop]
+    simp only [if_true]
+    exact Str.after s.str (tryPrint_spec (printFmt (bss.map .str) script).rest NL).str
+
+theorem printMacro_rest (ln : Bool) (bss : List (List Nat)) (script : List WResp) :
+    (printMacro ln (bss.map .str) script).rest = script.drop (printMacro ln (bss.map .str) script).used :=
+  (printMacro_str ln bss script).rest
 
 theorem printMacro_used_true (bss : List (List Nat)) (script : List WResp) :
     script.take (printMacro true (bss.map .str) script).used =
@@ -292,41 +398,59 @@ theorem printMacro_calls_true (bss : List (List Nat)) (script : List WResp) :
   have s := printFmt_spec bss script
   have t := tryPrint_spec (printFmt (bss.map .str) script).rest NL
   simp only [printMacro, if_true]
-  exact calls_after _ _ script s.logLen s.rest s.usedLe t.usedLe
+  exact Str.calls_after s.str t.str
 
-/-- the form of what reaches the descriptor: a prefix of the rendering, then a prefix of the newline -/
-theorem printMacro_form (ln : Bool) (bss : List (List Nat)) (script : List WResp)
-    (hz : ∀ c ∈ (printMacro ln (bss.map .str) script).calls script, badZero c = false) :
+/-- the form of what reaches the descriptor, for every script: a prefix of the rendering, then a prefix of the
+newline -/
+theorem printMacro_form (ln : Bool) (bss : List (List Nat)) (script : List WResp) :
     ∃ n m, (printMacro ln (bss.map .str) script).sink = bss.flatten.take n ++ (nlOf ln).take m := by
   have s := printFmt_spec bss script
   cases ln with
   | false =>
     refine ⟨(printFmt (bss.map .str) script).sink.length, 0, ?_⟩
-    simp only [printMacro] at hz ⊢
-    simpa using s.pre hz
+    simp only [printMacro]
+    simpa using s.pre
   | true =>
     have t := tryPrint_spec (printFmt (bss.map .str) script).rest NL
-    rw [printMacro_calls_true] at hz
     refine ⟨(printFmt (bss.map .str) script).sink.length,
       (tryPrint NL (printFmt (bss.map .str) script).rest).sink.length, ?_⟩
     simp only [printMacro, if_true, WOut.after, nlOf]
-    rw [← s.pre (fun r hr => hz r (List.mem_append_left _ hr)), ← t.pre]
+    rw [← s.pre, ← t.pre]
+
+/-- no failing call (no error, no `0` for a non-empty buffer) ⇒ the whole message and its newline, in order, each
+byte once -/
+theorem printMacro_complete (ln : Bool) (bss : List (List Nat)) (script : List WResp)
+    (h : ∀ c ∈ (printMacro ln (bss.map .str) script).calls script, failing c = false) :
+    (printMacro ln (bss.map .str) script).sink = bss.flatten ++ nlOf ln := by
+  have s := printFmt_spec bss script
+  cases ln with
+  | false =>
+    simp only [printMacro] at h ⊢
+    simpa [nlOf] using s.complete (s.ok_iff.2 h)
+  | true =>
+    have t := tryPrint_spec (printFmt (bss.map .str) script).rest NL
+    rw [printMacro_calls_true] at h
+    have a := s.complete (s.ok_iff.2 fun c hc => h c (List.mem_append_left _ hc))
+    have b := t.complete (t.ok_iff.2 fun c hc => h c (List.mem_append_right _ hc))
+    simp only [printMacro, if_true, WOut.after, nlOf]
+    rw [a, b]
+
+/-- `println!`/`eprintln!` exactly: the message part is what `write_fmt` delivered, and `__write_newline` is called
+whatever `write_fmt` returned — one more `write` of one byte, whose fate depends on the next answer alone -/
+theorem printMacro_ln (items : List FmtItem) (script : List WResp) :
+    (printMacro true items script).sink = (printFmt items script).sink ++ nlPart (printFmt items script).rest ∧
+    (printMacro true items script).log = (printFmt items script).log ++ [1] ∧
+    (printMacro true items script).used = (printFmt items script).used + min 1 (printFmt items script).rest.length := by
+  have t := tryPrint_nl (printFmt items script).rest
+  simp only [printMacro, if_true, WOut.after]
+  rw [t.1, t.2.1, t.2.2.1]
+  exact ⟨rfl, rfl, rfl⟩
 
 /-- short writes only ⇒ the whole message and its newline, in order, each byte once -/
 theorem printMacro_short_writes (ln : Bool) (bss : List (List Nat)) (script : List WResp)
     (h : ∀ r ∈ script.take (printMacro ln (bss.map .str) script).used, r.pos = true) :
-    (printMacro ln (bss.map .str) script).sink = bss.flatten ++ nlOf ln := by
-  cases ln with
-  | false =>
-    simp only [printMacro] at h ⊢
-    simpa [nlOf] using (printFmt_short_writes bss script h).2
-  | true =>
-    rw [printMacro_used_true] at h
-    have a := printFmt_short_writes bss script (fun r hr => h r (List.mem_append_left _ hr))
-    have b := tryPrint_short_writes NL (printFmt (bss.map .str) script).rest
-      (fun r hr => h r (List.mem_append_right _ hr))
-    simp only [printMacro, if_true, WOut.after, nlOf]
-    rw [a.2, b.2]
+    (printMacro ln (bss.map .str) script).sink = bss.flatten ++ nlOf ln :=
+  printMacro_complete ln bss script (pos_calls_ok h)
 
 /-- the rendering of a sequence of macro expansions -/
 def seqRender : List (Bool × List (List Nat)) → List Nat
@@ -336,8 +460,20 @@ def seqRender : List (Bool × List (List Nat)) → List Nat
 def seqItems (ms : List (Bool × List (List Nat))) : List (Bool × List FmtItem) :=
   ms.map fun m => (m.1, m.2.map .str)
 
-theorem printSeq_short_writes : ∀ (ms : List (Bool × List (List Nat))) (script : List WResp),
-    (∀ r ∈ script.take (printSeq (seqItems ms) script).used, r.pos = true) →
+theorem printSeq_str : ∀ (ms : List (Bool × List (List Nat))) (script : List WResp),
+    Str script (printSeq (seqItems ms) script) := by
+  intro ms
+  induction ms with
+  | nil => intro script; exact ⟨by simp [printSeq, seqItems], by simp [printSeq, seqItems], by simp [printSeq, seqItems]⟩
+  | cons m more ih =>
+    intro script
+    obtain ⟨ln, bss⟩ := m
+    simp only [seqItems, List.map_cons, printSeq]
+    exact Str.after (printMacro_str ln bss script) (ih _)
+
+/-- a sequence of expansions on one descriptor: no failing call ⇒ every message and newline, in order -/
+theorem printSeq_complete : ∀ (ms : List (Bool × List (List Nat))) (script : List WResp),
+    (∀ c ∈ (printSeq (seqItems ms) script).calls script, failing c = false) →
     (printSeq (seqItems ms) script).sink = seqRender ms := by
   intro ms
   induction ms with
@@ -345,12 +481,18 @@ theorem printSeq_short_writes : ∀ (ms : List (Bool × List (List Nat))) (scrip
   | cons m more ih =>
     intro script h
     obtain ⟨ln, bss⟩ := m
-    simp only [seqItems, List.map_cons, printSeq, WOut.after, seqRender] at h ⊢
-    have hr := printMacro_rest ln bss script
-    rw [List.take_add, ← hr] at h
-    rw [printMacro_short_writes ln bss script (fun r hx => h r (List.mem_append_left _ hx))]
-    have := ih (printMacro ln (bss.map .str) script).rest (fun r hx => h r (List.mem_append_right _ hx))
+    have hc := Str.calls_after (printMacro_str ln bss script) (printSeq_str more (printMacro ln (bss.map .str) script).rest)
+    simp only [seqItems, List.map_cons, printSeq, seqRender] at h hc ⊢
+    rw [hc] at h
+    simp only [WOut.after]
+    rw [printMacro_complete ln bss script (fun c hx => h c (List.mem_append_left _ hx))]
+    have := ih (printMacro ln (bss.map .str) script).rest (fun c hx => h c (List.mem_append_right _ hx))
     simp only [seqItems] at this
     rw [this]
+
+theorem printSeq_short_writes (ms : List (Bool × List (List Nat))) (script : List WResp)
+    (h : ∀ r ∈ script.take (printSeq (seqItems ms) script).used, r.pos = true) :
+    (printSeq (seqItems ms) script).sink = seqRender ms :=
+  printSeq_complete ms script (pos_calls_ok h)
 
 end TinyVerif.Io
